@@ -39,7 +39,7 @@ def anchors():
 
 
 POINTS = {}
-REQUIRED_CLAUSES = [history.CLAUSE, "dow==(JDN+1)%7", "dow.constant-over-day",
+REQUIRED_CLAUSES = ["history.views==fresh-object", history.CLAUSE, "dow==(JDN+1)%7", "dow.constant-over-day",
                     "dow==gregorian-weekday", "doy==days-since-jan1",
                     "get_doy.fraction", "doy2date.inverts", "year.int-part",
                     "year.strictly-increasing", "dec31==365|366",
@@ -287,7 +287,12 @@ def key_eqeq(j, diff_s):
     return None
 
 
-CASES = {"history": history.case, "year": case_year, "sidereal": case_sidereal}
+def _objhistory(mon, sv):
+    from vpm.props import c02 as _c02
+    _c02.case_objhistory(mon, sv)
+
+
+CASES = {"objhistory": _objhistory, "history": history.case, "year": case_year, "sidereal": case_sidereal}
 
 
 def gen_jde(rng):
@@ -310,6 +315,14 @@ def run(mon, spec):
     history.run_cases(mon, ID, spec)
     if not dc.self_check():
         raise RuntimeError("day counter self-check failed")
+    rng_h = random.Random(repr(sorted((k, repr(v)[:40]) for k, v in spec.items())))
+    # one Epoch object through option-carrying reads and every form of
+    # set(): its plain views stay those of a fresh Epoch of the same JDE
+    from vpm.props import c02 as _c02
+    for _ in range(40):
+        sv = rng_h.randrange(1 << 30)
+        mon.begin("objhistory", [sv])
+        _c02.case_objhistory(mon, sv)
     if spec["part"] == "cal":
         for y in spec["years"]:
             mon.begin("year", [y])
